@@ -67,7 +67,7 @@ def exchange(index: RepoIndex, rep, rule: str) -> None:
         'A is Action.PICK_N_DROP', f'S.grid.area.contains({FRONT})',
         f'isinstance({CELL}, Floor) or {CELL}.holdable',
         f'isinstance({HELD}, NoneGridObject)')]
-    worlds = m.worlds(guards + touch)
+    worlds = m.worlds(guards, touch=touch)
     bad = None
     n = 0
     for w in worlds:
